@@ -877,7 +877,7 @@ func (h *harness) configs() []*config {
 	}
 	add(nil, true, true, "", "", false)
 	rng := r.Rand("configs")
-	nRand := r.Pick(3, 28)
+	nRand := r.Pick(3, 15)
 	for i := 0; i < nRand; i++ {
 		var sets []string
 		for _, s := range all {
@@ -1059,7 +1059,7 @@ func main() {
 		}
 		cs = sel
 	}
-	vf.Parallel(len(cs), r.Pick(5, 5), func(i int) { h.runConfig(i, cs[i]) })
+	vf.Parallel(len(cs), r.Pick(5, 7), func(i int) { h.runConfig(i, cs[i]) })
 	<-expiredDone
 	h.foreign.proc.Stop(20 * time.Second)
 
@@ -1091,7 +1091,7 @@ func main() {
 	r.Extra("routes_unknown_to_documentation", undoc)
 	r.Extra("documented_api_sets", allSets)
 
-	r.Floor("configurations", int64(r.Pick(15, 40)))
+	r.Floor("configurations", int64(r.Pick(15, 27)))
 	r.Floor("documented_route_methods_reaching_handler", int64(total))
 	r.Floor("documented_route_methods_answering_2xx", int64(total-8))
 	r.Floor("expect.handler", 2000)
